@@ -10,6 +10,84 @@ use vh::vsched::*;
 
 include!("../../../harness/vts/src/c14_world.inc");
 
+// the listen world and the generated test service of harness/vts, compiled against the copy of the crate
+extern crate self as vts;
+#[path = "../../../harness/vts/src/lworld.rs"]
+pub mod lworld;
+#[path = "../../../harness/vts/src/ts.rs"]
+pub mod ts;
+#[allow(non_camel_case_types, non_snake_case, dead_code, unused_imports)]
+pub mod org_verif_t {
+    include!(concat!(env!("OUT_DIR"), "/org.verif.t.rs"));
+}
+pub mod flagtype {
+    pub use vh::vsched::sync::atomic::{AtomicBool, Ordering};
+}
+
+fn granularity() -> &'static str {
+    "[lock / atomic / channel granularity: compiled against a copy of the crate whose std::sync imports are redirected to scheduled primitives, every lock acquisition, atomic operation, channel send and receive of listen() and its pool is a scheduling point in addition to the probes]"
+}
+
+include!("../../../harness/vts/src/listen_families.inc");
+
+/// the copy's in-memory stream: same pipes as the probe-level engine, the copy's `Stream` trait
+struct SStream(ServerStream);
+impl std::io::Read for SStream {
+    fn read(&mut self, b: &mut [u8]) -> std::io::Result<usize> {
+        self.0.read(b)
+    }
+}
+impl std::io::Write for SStream {
+    fn write(&mut self, b: &[u8]) -> std::io::Result<usize> {
+        self.0.write(b)
+    }
+    fn flush(&mut self) -> std::io::Result<()> {
+        Ok(())
+    }
+}
+impl std::os::unix::io::AsRawFd for SStream {
+    fn as_raw_fd(&self) -> std::os::unix::io::RawFd {
+        -1
+    }
+}
+impl varlink::Stream for SStream {
+    fn split(&mut self) -> varlink::Result<(Box<dyn std::io::Read + Send + Sync>, Box<dyn std::io::Write + Send + Sync>)> {
+        if self.0.split_fails() {
+            return Err(varlink::context!(varlink::ErrorKind::Io(std::io::ErrorKind::Other)));
+        }
+        Ok((Box::new(self.0.dup()), Box::new(self.0.dup())))
+    }
+    fn shutdown(&mut self) -> varlink::Result<()> {
+        self.0.shutdown_server();
+        Ok(())
+    }
+    fn try_clone(&mut self) -> std::io::Result<Box<dyn varlink::Stream>> {
+        Ok(Box::new(SStream(self.0.dup())))
+    }
+    fn set_nonblocking(&mut self, _b: bool) -> varlink::Result<()> {
+        Ok(())
+    }
+}
+
+fn install_copy_hooks() {
+    install_hooks();
+    DEFAULT_REAL_QUEUE.store(true, std::sync::atomic::Ordering::SeqCst);
+    varlink::verif::set_hook(Some(Arc::new(|p| probe_hook(conv(p)))));
+    varlink::verif::set_accept_hook(Some(Arc::new(|timeout: u64| {
+        let s = current()?;
+        s.yield_op(Op::Accept(timeout));
+        let mut st = s.lock();
+        if st.free_run {
+            return Some(Err(varlink::context!(varlink::ErrorKind::ConnectionClosed)));
+        }
+        match st.accept_answer.take() {
+            Some(AcceptAnswer::Timeout) => Some(Err(varlink::context!(varlink::ErrorKind::Timeout))),
+            Some(AcceptAnswer::Conn(id)) => Some(Ok(Box::new(SStream(ServerStream { id, sched: s.clone() })) as Box<dyn varlink::Stream>)),
+            Some(AcceptAnswer::Fatal) | None => Some(Err(varlink::context!(varlink::ErrorKind::ConnectionClosed))),
+        }
+    })));
+}
+
 fn fail_exit(f: Fail) -> ! {
     eprintln!("MACHINERY: {:?}", f);
     std::process::exit(2)
@@ -45,8 +123,7 @@ fn build14s(initial: usize, max: usize, nconn: usize, crash: Option<usize>) -> i
 
 fn c14s(args: &Args) -> ! {
     let mut rep = Report::new("C14", "the real ThreadPool compiled from a copy of the crate whose std::sync imports (RwLock, Mutex, atomics, mpsc) are redirected to scheduled primitives: every lock acquisition (enabled only while it would not block), every atomic operation and every channel send / receive (receive enabled only when a message is queued) of the pool is a scheduling point, in addition to the probes; all interleavings of acceptor, workers and the environment's arrive / finish / shutdown actions within the deviation bound (quick 2, thorough 3) per configuration (initial, max, connections; plus configurations in which one handler panics); invariants as for the probe-level exploration: in_service<=max always, no accepted-but-unserved connection in a quiescent state while in_service<max, shutdown terminates with every job run exactly once; non-trivial = distinct complete executions");
-    install_hooks();
-    varlink::verif::set_hook(Some(Arc::new(|p| probe_hook(conv(p)))));
+    install_copy_hooks();
     let horizon = 8000;
     if let Some(case) = args.replay_case() {
         let (i, m, n) = (case["initial"].as_u64().unwrap() as usize, case["max"].as_u64().unwrap() as usize, case["conns"].as_u64().unwrap() as usize);
@@ -155,6 +232,22 @@ fn main() {
     let args = Args::parse();
     match args.sub.as_str() {
         "c14s" => c14s(&args),
+        "c13s" => {
+            install_copy_hooks();
+            c13(&args)
+        }
+        "c15s" => {
+            install_copy_hooks();
+            c15(&args)
+        }
+        "c06s" => {
+            install_copy_hooks();
+            c06l(&args)
+        }
+        "c01s" => {
+            install_copy_hooks();
+            c01l(&args)
+        }
         other => {
             eprintln!("unknown subcommand {:?}", other);
             std::process::exit(2)
